@@ -22,7 +22,7 @@ FACTORS = dict(
     cluster_every=[1, 2, 3, 5], n_max_clusters=[None, 1, 2, 3], split_threshold=[0.5, 1.0, 2.0],
     metric=["ess1", "ess2", "ess3.5", "vol0.5", "vol2"], steps=["default", "n1", "n3", "n2max2", "n1max50"],
     mode=["vec", "scalar", "blobs"], bc=["none", "periodic", "reflective", "mixed", "periodic2"], bctype=["list", "tuple"],
-    pool=["none", "int1", "int2", "object"], save_every=[None, 1, 3], n_dim=[1, 2, 4], n_particles=["default", 16, 50],
+    pool=["none", "int1", "int2", "object"], save_every=[None, 1, 3], outfs=["same", "other"], n_dim=[1, 2, 4], n_particles=["default", 16, 50],
 )
 
 
@@ -69,8 +69,13 @@ def build_kwargs(row, tmp):
 def valid_case(row, seed):
     from tempest import Sampler
     from tvf.checks.c08 import tmpdir
-    tmp = tmpdir()
-    out = dict(bad=[], iters=0)
+    tmp = None
+    if row.get("outfs") == "other":
+        tmp = tmpdir(other_fs=True)       # output directory on another filesystem than the system temp directory (tmpfs), if there is one
+    other_fs_used = tmp is not None
+    if tmp is None:
+        tmp = tmpdir()
+    out = dict(bad=[], iters=0, other_fs=int(other_fs_used))
     try:
         import multiprocessing as mp
         idblob.SHARED = mp.Value("q", 0)
@@ -177,6 +182,8 @@ def run():
             continue
         ck.case(dict(row=row), nontrivial=val["iters"] > 0)
         ck.event("valid configurations run to completion" if not val["bad"] else "valid configurations with a violation")
+        if val.get("other_fs") and row.get("save_every"):
+            ck.event("valid configurations with checkpoints written to a directory on another filesystem than the temp directory")
         for key, what in val["bad"]:
             ck.violation(key, f"{what}   row={row}", dict(row=row, seed=tasks[i][1]["seed"]))
     variants = [dict(), dict(sample="rwm", clustering=False), dict(resample="syst", ess_ratio=1.0), dict(n_max_clusters=2, normalize=False),
